@@ -37,9 +37,10 @@ pub const NLINKS: usize = 6;
 const MAXCLONES: usize = 6;
 const CLONE_LAG_LIMIT: usize = 12;
 
-fn enc(p: u32, n: u32) -> Update { Update::Withdraw((p << 20) | n, None) }
+// an update carries (publisher, sequence number)
+fn enc(p: u32, n: u32) -> Update { Update::WithdrawBulk([p, n].into_iter().collect()) }
 fn dec(u: &Update) -> (u32, u32) {
-    match u { Update::Withdraw(id, _) => (id >> 20, id & 0xfffff), _ => (999, 999) }
+    match u { Update::WithdrawBulk(v) if v.len() == 2 => (v[0], v[1]), _ => (u32::MAX, u32::MAX) }
 }
 
 #[derive(Debug, Default)]
@@ -396,6 +397,21 @@ pub fn soak(args: &[String]) {
         if v.len() < 5 { v.push(info.to_string().replace('\n', " ")); }
         if std::env::var("C08_SOAK_DEBUG").is_ok() { eprintln!("PANIC {info}"); }
     }));
+    // watchdog: a panicking task (e.g. the root gate's) or a deadlock must not hang the check
+    std::thread::spawn(move || {
+        let t0 = std::time::Instant::now();
+        loop {
+            std::thread::sleep(Duration::from_millis(50));
+            if let Some(p) = PANICS.lock().unwrap().first() {
+                println!("bad a task panicked: {p}");
+                std::process::exit(0);
+            }
+            if t0.elapsed() > Duration::from_millis(millis + 30_000) {
+                println!("bad soak did not finish (deadlock?)");
+                std::process::exit(0);
+            }
+        }
+    });
     let rt = tokio::runtime::Builder::new_multi_thread().worker_threads(6).enable_time().build().unwrap();
     let verdict: Result<String, String> = rt.block_on(async move {
         let (gate, mut agent) = Gate::new(3);
@@ -437,7 +453,7 @@ pub fn soak(args: &[String]) {
             let (g, stop) = (gate.clone(), pubs_stop.clone());
             tokio::spawn(async move {
                 let mut logs = vec![];
-                let mut p = 1000u32;
+                let mut p = 1_000_000u32;
                 while !stop.load(SeqCst) {
                     let c = Arc::new(g.as_ref().clone());
                     logs.push(publisher(c.clone(), p, stop.clone(), 24).await);
